@@ -1,6 +1,9 @@
 package main
 
 import (
+	"bufio"
+	"crypto/sha1"
+	"encoding/hex"
 	"encoding/json"
 	"fmt"
 	"os"
@@ -98,6 +101,7 @@ type violation struct {
 	Case     int            `json:"case"`               // case index
 	Detail   map[string]any `json:"detail"`             // inputs, expected, got
 	Sig      string         `json:"sig,omitempty"`      // signature for known-finding matching
+	RC       string         `json:"rc,omitempty"`       // root-cause label (defaults to kind[/cause])
 	Expected string         `json:"expected,omitempty"` // rendered
 	Got      string         `json:"got,omitempty"`
 }
@@ -113,6 +117,8 @@ type stats struct {
 	CoqCases        int            `json:"coq_cases"`
 	Violations      []violation    `json:"violations"`
 	TotalViolations int            `json:"total_violations"`
+	KnownHits       int            `json:"known_hits"`
+	KnownByRC       map[string]int `json:"known_by_rc,omitempty"`
 	perKey          map[string]int
 	Notes           []string       `json:"notes,omitempty"`
 	Extra           map[string]any `json:"extra,omitempty"`
@@ -130,9 +136,43 @@ func (s *stats) sample(v any) {
 	}
 }
 
-// violate records a violation; at most 2 per (kind, pattern) and 3000 in total, so that
-// one root cause does not crowd out the others.
+// violate records a violation of the property found on the Go side.
+//
+// Ledger mode (env VERIF_LEDGER=<file>): violations whose signature hash is listed in
+// the ledger are failing inputs already recorded for an open known finding; they are
+// only counted (per root-cause label).  Every other violation is kept with full detail
+// (at most 2 per (kind, pattern) and 400 in total; the total is always counted).
+// Record mode (env VERIF_RECORD=<file>): every violation is appended to the file as
+// `<hash> <root-cause label> <signature>` — used by hand to (re)build a ledger, never by
+// a check.
 func (s *stats) violate(v violation) {
+	s.TotalViolations++
+	h := sigHash(v.Sig)
+	rc := v.RC
+	if rc == "" {
+		rc = v.Kind
+		if i := strings.LastIndex(v.Sig, " cause="); i >= 0 {
+			rc += "/" + v.Sig[i+7:]
+		}
+	}
+	rc = strings.ReplaceAll(rc, " ", "_")
+	if recordFile != nil {
+		sig := v.Sig
+		if len(sig) > 300 {
+			sig = sig[:300]
+		}
+		fmt.Fprintf(recordFile, "%s %s %s\n", h, rc, strings.ReplaceAll(sig, "\n", "\\n"))
+	}
+	if ledger != nil {
+		if _, ok := ledger[h]; ok {
+			if s.KnownByRC == nil {
+				s.KnownByRC = map[string]int{}
+			}
+			s.KnownByRC[rc]++
+			s.KnownHits++
+			return
+		}
+	}
 	if s.perKey == nil {
 		s.perKey = map[string]int{}
 	}
@@ -141,9 +181,39 @@ func (s *stats) violate(v violation) {
 		k += "\x00" + p
 	}
 	s.perKey[k]++
-	s.TotalViolations++
-	if s.perKey[k] <= 2 && len(s.Violations) < 3000 {
+	if s.perKey[k] <= 2 && len(s.Violations) < 400 {
 		s.Violations = append(s.Violations, v)
+	}
+}
+
+func sigHash(sig string) string {
+	sum := sha1.Sum([]byte(sig))
+	return hex.EncodeToString(sum[:])[:20]
+}
+
+var ledger map[string]string
+var recordFile *os.File
+
+func init() {
+	if p := os.Getenv("VERIF_LEDGER"); p != "" {
+		ledger = map[string]string{}
+		if f, err := os.Open(p); err == nil {
+			sc := bufio.NewScanner(f)
+			sc.Buffer(make([]byte, 1<<20), 1<<20)
+			for sc.Scan() {
+				parts := strings.SplitN(sc.Text(), " ", 3)
+				if len(parts) >= 2 && !strings.HasPrefix(parts[0], "#") {
+					ledger[parts[0]] = parts[1]
+				}
+			}
+			f.Close()
+		}
+	}
+	if p := os.Getenv("VERIF_RECORD"); p != "" {
+		f, err := os.Create(p)
+		if err == nil {
+			recordFile = f
+		}
 	}
 }
 
